@@ -825,7 +825,7 @@ pub fn arb_item(kw: bool) -> BoxedStrategy<Item> {
             .prop_map(|(s, name, annot)| Item::Namespace { scope: s.to_string(), name, annot }),
         2 => (arb_type(2, kw), arb_ident(kw), arb_annot()).prop_map(|(ty, alias, annot)| Item::Typedef { ty, alias, annot }),
         3 => (arb_ident(kw), arb_type(2, kw), arb_cv(3, kw), arb_annot()).prop_map(|(name, ty, value, annot)| Item::Const { name, ty, value, annot }),
-        2 => (arb_ident(kw), prop::collection::vec((arb_ident(kw), prop::option::of(prop_oneof![0i64..100, any::<i32>().prop_map(|x| x as i64)]), arb_annot()), 0..5), arb_annot())
+        2 => (arb_ident(kw), prop::collection::vec((arb_ident(kw), prop::option::of(prop_oneof![4 => 0i64..100, 3 => any::<i32>().prop_map(|x| x as i64), 1 => prop::sample::select(vec![2147483647i64, 2147483648, -2147483648, -2147483649, 4294967295, 4294967296, i64::MAX, i64::MIN, i64::MIN + 1]), 1 => any::<i64>()]), arb_annot()), 0..5), arb_annot())
             .prop_map(|(name, values, annot)| Item::Enum { name, values, annot }),
         4 => arb_struct_like(kw).prop_map(Item::Struct),
         2 => arb_struct_like(kw).prop_map(Item::Union),
